@@ -4,7 +4,7 @@
 S=/verif/seeded/$1; PID=$2; TIER=${3:-quick}
 cd /repo && git status --short | grep -v egg-info | grep . && { echo "/repo not clean"; exit 2; }
 git -C /repo apply $S/patch.diff || { echo "patch does not apply to current /repo HEAD"; exit 2; }
-cd /verif && /venv/bin/python py/check.py $PID --tier $TIER > $S/check_$PID.log 2>&1; RC=$?
+cd /verif && /venv/bin/python py/check.py $PID --tier $TIER $EXTRA > $S/check_$PID.log 2>&1; RC=$?
 git -C /repo checkout -- .
 echo "check $PID --tier $TIER exit=$RC" > $S/check_$PID.txt
 grep -h "^VIOLATION\|^KNOWN" $S/check_$PID.log | head -5 >> $S/check_$PID.txt
